@@ -3,8 +3,19 @@ def replay_design(p,repo):
   if repo not in sys.path: sys.path.insert(0,repo)
   from zoo import designs, run
   print("check      :",p['check'],"-",run.CHECK_DOC[p['check']]); print("design     :",p['design']); print(designs.HEADER.split('class Fwd')[0].strip()[:0]+p['body'])
-  r=run._job((p['check'],None,p['design'],p['body'],repo,p.get('seed',0)))
+  r=run._job((p['check'],p.get('expected'),p['design'],p['body'],repo,p.get('seed',0)))
   if r['error']: print("error:",r['error']); return 3
   if not r['failed']: print("the contract holds on this design: NOT reproduced"); return 0
   for f in r['failed']: print("FAILED     :",f)
+  return 1
+
+def replay_nets(p,repo):
+  if repo not in sys.path: sys.path.insert(0,repo)
+  from zoo import designs, run
+  items=[(n,b) for n,b,g in designs.family_E(24) if g==p['group']]
+  r=run._netjob((p['group'],items,repo))
+  print("check      : nets -",run.CHECK_DOC['nets']); print("group      :",p['group'],f"({len(items)} permutations / side flips)")
+  if r['error']: print("error:",r['error']); return 3
+  if not r['failed']: print("the contract holds: NOT reproduced"); return 0
+  for f in r['failed'][:6]: print("FAILED     :",f)
   return 1
